@@ -27,6 +27,9 @@ def units(tier):
         for i in range(len(bases)):
             us.append(("cluster", kind, i))
         us.append(("general", kind))
+        if kind == "greg":
+            for part in range(3):
+                us.append(("noise", kind, part))
         n = len(bases)
         for i in range(0, n, 4):
             us.append(("cross", kind, i, min(i + 4, n)))
@@ -148,9 +151,10 @@ def check_pool(ctx, kind, pool, signs=True, triples=True):
                 continue
             x, y = pool[i], pool[j]
             d = x.inst - y.inst
-            if pair_exact(x, y) or abs(d) > TOL:
+            # (always judged: whatever the float noise, the two orders must not contradict each other)
+            if True:
                 if a[0] != b[0] or a[1] != b[1] or a[2] != b[4] or a[4] != b[2] or a[3] != b[5] or a[5] != b[3]:
-                    ctx.violation("symmetry", {"h24": x.h24 or y.h24},
+                    ctx.violation("symmetry", {"h24": x.h24 or y.h24, "exact": bool(pair_exact(x, y) or abs(d) > TOL)},
                                   {"kind": "pair", "mode": kind, "a": x.label, "b": y.label},
                                   "a==b iff b==a; a<b iff b>a", {"a_op_b": dict(zip(OPS, a)), "b_op_a": dict(zip(OPS, b))})
             # hash agreement for model-equal instants in the exact domain
@@ -240,6 +244,42 @@ def run_unit(unit, ctx):
     elif u == "general":
         pool = build_pool(ctx, kind, collide.general_cluster(kind))
         check_pool(ctx, kind, pool, triples=False)
+    elif u == "noise":
+        # two spellings of one instant with non-binary decimals: whatever the float noise, the answers must not
+        # contradict each other (a > b and b > a; a == b but not b == a), every operator and a - b must return,
+        # and equal operands must hash alike
+        for xd, yd in collide.noise_pairs(unit[2]):
+            pool = build_pool(ctx, kind, [(xd, None, False), (yd, None, False)])
+            if len(pool) != 2:
+                continue
+            x, y = pool
+            if abs(x.inst - y.inst) > Fraction(1, 10 ** 9):   # (the stored floats h + 0.cc differ in the last bit)
+                raise RuntimeError("noise pair not at one instant: %r %r" % (xd, yd))
+            x.hash, y.hash = hash(x.obj), hash(y.obj)
+            a, b = check_pair(ctx, kind, x, y), check_pair(ctx, kind, y, x)
+            case = {"kind": "pair", "mode": kind, "a": x.label, "b": y.label}
+            if a is not None and b is not None:
+                ctx.outcome("noise_pair_answer", (a[0], a[2], a[4], b[0], b[2], b[4]))
+                if (a[4] and b[4]) or (a[2] and b[2]) or a[0] != b[0]:
+                    ctx.violation("order_contradiction", {"exact": False, "h24": False}, case,
+                                  "never a > b and b > a (or a < b and b < a); a == b iff b == a",
+                                  {"a_op_b": dict(zip(OPS, a)), "b_op_a": dict(zip(OPS, b))})
+            for p, q in ((x, y), (y, x)):
+                ctx.transitions += 1
+                impl._H.ticks = 0
+                try:
+                    dd = p.obj - q.obj
+                    _, _, sec, _ = impl.alpha_duration(dd)
+                    if abs(sec) > TOL:
+                        ctx.violation("sign_of_difference", {"h24": False, "noise": True}, case, {"delta_s": "0"},
+                                      {"a_minus_b": impl.sstr(dd)})
+                except HorizonExceeded as e:
+                    ctx.violation("terminates", {"h24": False}, case, "a - b terminates", str(e))
+                except BaseException as e:
+                    if isinstance(e, (KeyboardInterrupt, SystemExit)):
+                        raise
+                    ctx.violation("total", {"exc": type(e).__name__, "h24": False}, case, "a - b returns a Duration",
+                                  "raised %s" % type(e).__name__)
     elif u == "cross":
         bases = collide.base_instants(kind, tier)
         reps_all = []
